@@ -40,13 +40,25 @@ func genC18(t *rapid.T) *raceCase {
 	// virtual instants.
 	p := rapid.SampledFrom([]int{20, 50, 100}).Draw(t, "period")
 	mk := func(label string) vnet.TimeoutCfg {
-		return vnet.TimeoutCfg{
+		c := vnet.TimeoutCfg{
 			Static:      true,
 			ResendMs:    p * rapid.SampledFrom([]int{1, 2}).Draw(t, label+"_resend"),
 			HandshakeMs: p * 4,
 			PingMs:      p * rapid.SampledFrom([]int{1, 2, 3}).Draw(t, label+"_ping"),
 			PongMs:      p * rapid.SampledFrom([]int{1, 2}).Draw(t, label+"_pong"),
 		}
+		// adaptive mode exercises the booster / sample bookkeeping from both
+		// loops (Sent(resent) in the send loop against Received and
+		// GetResendTimeout in the receive loop)
+		if rapid.Bool().Draw(t, label+"_adaptive") {
+			c.Static, c.ResendMs = false, 0
+			c.Mult = rapid.SampledFrom([]int{1, 5}).Draw(t, label+"_mult")
+			c.Freq = rapid.SampledFrom([]int{1, 2, 200}).Draw(t, label+"_freq")
+			c.BoostPct = 50
+			c.PingMs = 1000 * rapid.SampledFrom([]int{1, 2}).Draw(t, label+"_ping_s")
+			c.PongMs = 1000
+		}
+		return c
 	}
 	sc.Client, sc.Server = mk("client"), mk("server")
 	sc.LatC2SMs = rapid.SampledFrom([]int{0, p / 2, p}).Draw(t, "lat_c2s")
@@ -56,7 +68,7 @@ func genC18(t *rapid.T) *raceCase {
 	delays := []int{0, p, 2 * p}
 	sc.FaultsC2S = genScript(t, "f_c2s", 60, delays)
 	sc.FaultsS2C = genScript(t, "f_s2c", 60, delays)
-	sc.DeadlineMs = 40 * p * 10
+	sc.DeadlineMs = 40*p*10 + 20000
 	c := &raceCase{Sc: sc}
 	opGen := rapid.Custom(func(t *rapid.T) extraOp {
 		return extraOp{
